@@ -41,9 +41,24 @@ def gen_arr(rng, maxops):
     return "arr|" + ";".join(ops)
 
 
+# case kinds of the container engine: kind -> generator(rng, maxops) -> case line.
+# Each container lives in gen/opsgen_<kind>.py (function gen_case); the quick/thorough mix is
+# balanced over the kinds.
+import importlib
+
+KINDS = {"arr": gen_arr}
+for _k in ("llist", "slist", "ht", "buf"):
+    try:
+        KINDS[_k] = importlib.import_module("opsgen_" + _k).gen_case
+    except ModuleNotFoundError:
+        pass
+
+
 def gen(rng, tier, n):
     maxops = 120 if tier == "quick" else 600
+    kinds = sorted(KINDS)
     out = []
     for i in range(n):
-        out.append(gen_arr(rng, maxops))
+        k = kinds[i % len(kinds)]
+        out.append(KINDS[k](rng, maxops))
     return out
